@@ -691,6 +691,12 @@ def LcdcOn (wr : List (Cpu.Word × Cpu.Byte)) : Prop := ∀ p ∈ wr, p.1.toNat 
     never writes LCDC with bit 7 clear (in particular: it does not write LCDC at all) -/
 def NoSwitchOn (en : Bool) (wr : List (Cpu.Word × Cpu.Byte)) : Prop := LcdcOff wr ∨ (en = true ∧ LcdcOn wr)
 
+instance (wr : List (Cpu.Word × Cpu.Byte)) : Decidable (NoDmaStart wr) := by unfold NoDmaStart; infer_instance
+instance (wr : List (Cpu.Word × Cpu.Byte)) : Decidable (LcdcOff wr) := by unfold LcdcOff; infer_instance
+instance (wr : List (Cpu.Word × Cpu.Byte)) : Decidable (LcdcOn wr) := by unfold LcdcOn; infer_instance
+instance (en : Bool) (wr : List (Cpu.Word × Cpu.Byte)) : Decidable (NoSwitchOn en wr) := by
+  unfold NoSwitchOn; infer_instance
+
 /-- what is tracked through the nine bus operations of the instrumented board, relative to the board `b0` the
     cycle started from -/
 private structure Tracked (b0 : Board) (g : Ghost Board) : Prop where
@@ -991,5 +997,95 @@ theorem c17_whole_lcd_off_reachable (img : Cart.Image) (wr au : Bool) (w0 : Whol
       ∃ j < n, ∃ p ∈ cpuWrites (Whole.run j (Whole.run t w0)), p.1.toNat = 0xFE00 + k :=
   (c17_whole_lcd_off (Whole.run t w0) n hoff
     ((oamOk_run t w0 (oamOk_construct img wr au w0 hc)).quiet (Or.inl hoff)) hidle hprog).2.2.2
+
+/-! ## non-vacuity: concrete machines meet the hypotheses, and the hypotheses matter -/
+
+/-- a 32 KiB ROM-only image whose program switches the LCD off in mode 2 and then walks pointers through OAM:
+    `LD A,11; LDH (40),A; LD HL,FE10; LD (HL),5A; LD SP,FE20; PUSH BC; INC HL; LD A,(HL+); JR` -/
+def offImg : Cart.Image :=
+  { len := 0x8000,
+    byte := fun i => match i with
+      | 0x100 => 0x3E | 0x101 => 0x11 | 0x102 => 0xE0 | 0x103 => 0x40
+      | 0x104 => 0x21 | 0x105 => 0x10 | 0x106 => 0xFE
+      | 0x107 => 0x36 | 0x108 => 0x5A
+      | 0x109 => 0x31 | 0x10A => 0x20 | 0x10B => 0xFE
+      | 0x10C => 0xC5 | 0x10D => 0x23 | 0x10E => 0x2A | 0x10F => 0x18 | 0x110 => 0xFE
+      | _ => 0 }
+
+/-- the machine `gameboy.New` builds from it -/
+def offW : Whole := powerOn (.none { rom := Cart.pagesOf offImg, imgLen := 0x8000 }) false false
+
+theorem offW_constructed : Whole.construct offImg false false = some offW := rfl
+
+/-- the constructed machine satisfies the invariant of reachable states, at every point of its run -/
+example (t : Nat) : OamOk (Whole.run t offW) := oamOk_run t _ (oamOk_construct _ _ _ _ offW_constructed)
+
+/-- window invariant, both sides: at power-on the window is open (LCD on, mode 2); five cycles later the program
+    has switched the LCD off in mode 2 and the window is closed -/
+example : offW.b.m.oam.corrupt = true ∧ offW.b.m.ppu.enabled = true ∧ offW.b.m.ppu.mode = 2 ∧
+    (Whole.run 4 offW).b.m.oam.corrupt = true ∧ (Whole.run 4 offW).b.m.ppu.mode = 2 ∧
+    cpuWrites (Whole.run 4 offW) = [(0xFF40, 0x11)] ∧
+    (Whole.run 5 offW).b.m.ppu.enabled = false ∧ (Whole.run 5 offW).b.m.oam.corrupt = false := by decide +kernel
+
+/-- the hypotheses of `c17_whole_lcd_off_reachable` at t = 5, n = 15 (the program keeps the LCD off and starts
+    no transfer) … -/
+example : (Whole.run 5 offW).b.m.ppu.enabled = false ∧ (Whole.run 5 offW).b.m.oam.dmaRunning = false ∧
+    ∀ j < 15, NoDmaStart (cpuWrites (Whole.run j (Whole.run 5 offW))) ∧
+              LcdcOff (cpuWrites (Whole.run j (Whole.run 5 offW))) := by decide +kernel
+
+/-- … and its conclusion is not empty: in these 15 cycles OAM changes at FE10 (`LD (HL),5A`) and FE1E (`PUSH BC`),
+    each the target of a CPU write in one of the cycles; the 16-bit `INC HL`, the `LD A,(HL+)` and the `PUSH` with
+    pointers inside FE00–FEFF change nothing else -/
+example : (Whole.run 15 (Whole.run 5 offW)).b.m.oam.oam[0x10] = 0x5A ∧
+    (Whole.run 15 (Whole.run 5 offW)).b.m.oam.oam[0x1E] = 0x13 ∧ (Whole.run 5 offW).b.m.oam.oam[0x10] = 0 ∧
+    cpuWrites (Whole.run 5 (Whole.run 5 offW)) = [(0xFE10, 0x5A)] ∧
+    cpuWrites (Whole.run 11 (Whole.run 5 offW)) = [(0xFE1F, 0x00)] ∧
+    cpuWrites (Whole.run 12 (Whole.run 5 offW)) = [(0xFE1E, 0x13)] ∧
+    ((Whole.run 15 (Whole.run 5 offW)).b.m.oam.oam.toList.zipIdx.filter (·.1 ≠ 0)).map (·.2) = [0x10, 0x1E] := by
+  decide +kernel
+
+/-- a `Quiet` board (LCD off) for `c17_whole_frame`, with a write into OAM, a write to FF46 and a read -/
+example : Quiet (Whole.run 5 offW).b.m.oam := ⟨by decide +kernel, by decide +kernel, by decide +kernel, by decide +kernel⟩
+example : ((Whole.run 5 offW).b.write 0xFE13 0x77).m.oam.oam[0x13] = 0x77 ∧
+    ((Whole.run 5 offW).b.write 0xFF46 0xC0).m.oam.dmaRunning = true ∧
+    ((Whole.run 5 offW).b.write 0xFF46 0xC0).m.oam.oam = (Whole.run 5 offW).b.m.oam.oam := by decide +kernel
+
+/-- `c16_whole_block`: a board with a transfer running -/
+example : ((Whole.run 5 offW).b.write 0xFF46 0xC0).read 0xFE13 = (0xff, (Whole.run 5 offW).b.write 0xFF46 0xC0) :=
+  c16_whole_block _ _ (by decide) (by decide +kernel)
+
+/-- an image whose program writes OAM with the LCD ON, outside mode 2 (16 NOPs, then `LD HL,FE10; LD (HL),5A`:
+    the write happens in machine cycle 21, the first one the PPU spends in mode 3) -/
+def onImg : Cart.Image :=
+  { len := 0x8000,
+    byte := fun i => match i with
+      | 0x110 => 0x21 | 0x111 => 0x10 | 0x112 => 0xFE | 0x113 => 0x36 | 0x114 => 0x5A
+      | _ => 0 }
+def onW : Whole := powerOn (.none { rom := Cart.pagesOf onImg, imgLen := 0x8000 }) false false
+theorem onW_constructed : Whole.construct onImg false false = some onW := rfl
+
+/-- the hypotheses of `c17_whole_cycle` with the LCD on, in mode 3, in a cycle in which the CPU writes FE10 … -/
+example : (Whole.run 21 onW).b.m.ppu.enabled = true ∧ (Whole.run 21 onW).b.m.ppu.mode = 3 ∧
+    (Whole.run 21 onW).b.m.oam.dmaRunning = false ∧ cpuWrites (Whole.run 21 onW) = [(0xFE10, 0x5A)] ∧
+    NoDmaStart (cpuWrites (Whole.run 21 onW)) ∧
+    NoSwitchOn (Whole.run 21 onW).b.m.ppu.enabled (cpuWrites (Whole.run 21 onW)) ∧
+    (Whole.run 21 onW).b.m.oam.oam[0x10] = 0 ∧ (Whole.run 21 onW).cycle.b.m.oam.oam[0x10] = 0x5A := by decide +kernel
+/-- … where `Quiet` comes from the invariant of reachable states -/
+example : Quiet (Whole.run 21 onW).b.m.oam :=
+  (oamOk_run 21 _ (oamOk_construct _ _ _ _ onW_constructed)).quiet (Or.inr (by decide +kernel))
+
+/-- the hypothesis `Quiet` matters: the documented mode-2 corruption IS in the model.  `LD HL,FE30; LD (HL),5A; NOP;
+    LD A,(HL)` right after power-on (LCD on, mode 2, window open): in machine cycle 8 the CPU only READS FE30 – it
+    performs no bus write at all – and OAM byte FE38, which the CPU never wrote, changes from 00 to 5A -/
+def bugImg : Cart.Image :=
+  { len := 0x8000,
+    byte := fun i => match i with
+      | 0x100 => 0x21 | 0x101 => 0x30 | 0x102 => 0xFE | 0x103 => 0x36 | 0x104 => 0x5A | 0x106 => 0x7E
+      | _ => 0 }
+def bugW : Whole := powerOn (.none { rom := Cart.pagesOf bugImg, imgLen := 0x8000 }) false false
+example : Whole.construct bugImg false false = some bugW := rfl
+example : (Whole.run 8 bugW).b.m.oam.corrupt = true ∧ (Whole.run 8 bugW).b.m.ppu.mode = 2 ∧
+    cpuWrites (Whole.run 8 bugW) = [] ∧
+    (Whole.run 8 bugW).b.m.oam.oam[0x38] = 0 ∧ (Whole.run 8 bugW).cycle.b.m.oam.oam[0x38] = 0x5A := by decide +kernel
 
 end Tetro.C17Whole
